@@ -90,7 +90,9 @@ impl SerdeParser {
             let after_rename = &tokens[abs_pos + 6..];
             if after_rename.trim_start().starts_with("_all") {
                 // This is rename_all, skip it
-                search_start = abs_pos + 10; // Move past "rename_all"
+                // Move past "rename" (the matched text); "_all" may follow after arbitrary
+                // white space, so a fixed +10 could land inside a multi-byte character
+                search_start = abs_pos + 6;
                 continue;
             }
 
